@@ -111,6 +111,12 @@ P.verify(fn(
     ],
 ))
 
+# ---- Equation.AddTerm (contracts shared with C06: additivity of Den, invariant, copies of Term arguments) ----
+from . import C06 as _c06  # noqa
+P.verify(_c06.ADDTERM_STR)
+P.verify(_c06.ADDTERM_TERM)
+P.lemma('sum_lemmas', den.induction_obligations, 'sum-frame, sum-update-one, sum-append for SumTV, each by base + step for arbitrary arrays')
+
 # ---- Equation.GetRightHandSide -----------------------------------------------------------------------------
 ArrS = z3.ArraySort(z3.IntSort(), StrS)
 ArrB = z3.ArraySort(z3.IntSort(), z3.BoolSort())
